@@ -26,6 +26,9 @@ def run(ctx):
         # next to forwarded traffic: the proxy's own answers must not be swapped between streams either
         ("local-bursts-3x1", ["-random", n(300, 2000), "-nodes", "3", "-numconns", "1", "-clients", "3", "-workers", "4", "-round", "150", "-delay", "2",
                               "-localbursts", "3", "-okbias", "4", "-nodrops"], False),
+        # nodes that stop reading and then lose their connections, with bulky requests queued for them
+        ("stall-drops-3x2", ["-random", n(300, 2000), "-nodes", "3", "-numconns", "2", "-clients", "4", "-workers", "6", "-round", "300",
+                             "-stalldrops", "6", "-okbias", "6", "-nodrops"], False),
         ("scripted-3x1", ["-nodes", "3", "-numconns", "1", "-clients", "4", "-workers", "4", "-round", "160"], True),
     ]
     rf.run_property(ctx, "C02", plans, nscen=300)
